@@ -1,14 +1,308 @@
-(* Lemmas about the TSIG model (coq/Model/TsigM.v). *)
+(* Lemmas about the TSIG model (coq/Model/TsigM.v): encodings, the digest input is the
+   RFC 8945 input (Proofs/TsigSpec.v), validate's acceptance condition, sign-then-validate. *)
 From DV Require Import Base.Prelude.
 From DV Require Model.NameM.
-From DV Require Import Model.TsigM.
+From DV Require Import Model.TsigM Proofs.TsigSpec.
 Open Scope Z_scope.
+Ltac Zify.zify_post_hook ::= Z.to_euclidean_division_equations.
+
+Ltac ok_inv E :=
+  match type of E with
+  | Ok ?a = Ok ?b => let h := fresh in assert (h : a = b) by congruence; clear E; try subst b
+  end.
+
+(* ---------- encodings ---------- *)
+
+Lemma be_app : forall m n v, be (n + m) v = be n (v / 256 ^ Z.of_nat m) ++ be m v.
+Proof.
+  induction m; intros.
+  - rewrite Nat.add_0_r. cbn [be]. rewrite app_nil_r. change (256 ^ Z.of_nat 0) with 1. now rewrite Z.div_1_r.
+  - rewrite Nat.add_succ_r. cbn [be]. rewrite IHm, <- app_assoc. f_equal.
+    rewrite Z.div_div by lia. f_equal. rewrite Nat2Z.inj_succ, Z.pow_succ_r by lia. reflexivity.
+Qed.
+
+Lemma be_length : forall n v, length (be n v) = n.
+Proof. induction n; intros; cbn [be]; [reflexivity|]. rewrite app_length, IHn. cbn. lia. Qed.
+
+Lemma in_u16_iff : forall v, in_u16 v = true <-> 0 <= v < 65536.
+Proof. intros. unfold in_u16. rewrite andb_true_iff, Z.leb_le, Z.ltb_lt. tauto. Qed.
+
+Lemma u16_be : forall v, in_u16 v = true -> u16 v = be 2 v.
+Proof.
+  intros v Hv. apply in_u16_iff in Hv. unfold u16. cbn [be app]. f_equal. lia.
+Qed.
+
+Lemma u32_be0 : u32 0 = be 4 0.
+Proof. reflexivity. Qed.
+
+Lemma time_be : forall t,
+  u16 ((t / 4294967296) mod 65536) ++ u32 (t mod 4294967296) = be 6 t.
+Proof.
+  intros. change 6%nat with (2 + 4)%nat. rewrite be_app.
+  change (256 ^ Z.of_nat 4) with 4294967296.
+  f_equal.
+  - unfold u16. cbn [be app]. f_equal; [lia|]. f_equal. lia.
+  - unfold u32. cbn [be app]. repeat (f_equal; try lia).
+Qed.
+
+(* be is injective on its range *)
+Lemma be_inj : forall n a b,
+  0 <= a < 256 ^ Z.of_nat n -> 0 <= b < 256 ^ Z.of_nat n -> be n a = be n b -> a = b.
+Proof.
+  induction n; intros a b Ha Hb E.
+  - change (256 ^ Z.of_nat 0) with 1 in *. lia.
+  - cbn [be] in E. apply app_inj_tail in E as [E1 E2].
+    rewrite Nat2Z.inj_succ, Z.pow_succ_r in Ha, Hb by lia.
+    apply IHn in E1; [|lia|lia].
+    rewrite (Z.div_mod a 256), (Z.div_mod b 256) by lia. congruence.
+Qed.
+
+Lemma zlist_eqb_eq : forall a b, zlist_eqb a b = true <-> a = b.
+Proof.
+  induction a; destruct b; cbn; split; intros E; try reflexivity; try discriminate.
+  - apply andb_true_iff in E as [E1 E2]. apply Z.eqb_eq in E1. apply IHa in E2. congruence.
+  - inversion E; subst. rewrite Z.eqb_refl. cbn. now apply IHa.
+Qed.
+
+Lemma zlist_eqb_refl : forall a, zlist_eqb a a = true.
+Proof. intros. now apply zlist_eqb_eq. Qed.
+
+(* ---------- names ---------- *)
+
+Lemma canonical_name_wire : forall n, canonical_name n = NameM.wire_labels true n.
+Proof.
+  intros. unfold canonical_name, NameM.wire_labels. rewrite flat_map_concat_map. reflexivity.
+Qed.
+
+Lemma to_digestable_ok : forall n b,
+  NameM.to_wire n None true = Ok b -> b = canonical_name n /\ NameM.is_absolute n = true.
+Proof.
+  intros n b E. unfold NameM.to_wire in E. destruct (NameM.is_absolute n); [|discriminate].
+  inversion E. now rewrite canonical_name_wire.
+Qed.
+
+Lemma cmp_bytes_refl : forall l, cmp_bytes l l = Eq.
+Proof. induction l; cbn; [reflexivity|]. now rewrite Z.compare_refl. Qed.
+
+Lemma fc_loop_refl : forall l d nl, NameM.fc_loop l l d nl =
+  ((if d <? 0 then NameM.rSUPER else if d >? 0 then NameM.rSUB else NameM.rEQUAL), d, nl + zlen l).
+Proof.
+  induction l; intros; cbn [NameM.fc_loop].
+  - unfold zlen. cbn. now rewrite Z.add_0_r.
+  - rewrite cmp_bytes_refl, IHl. f_equal. unfold zlen. cbn [length]. lia.
+Qed.
+
+Lemma name_eqb_refl : forall n, NameM.name_eqb n n = true.
+Proof.
+  intros. unfold NameM.name_eqb, NameM.order, NameM.fullcompare.
+  rewrite Bool.eqb_reflx. cbn [negb]. rewrite fc_loop_refl. cbn [fst snd].
+  apply Z.eqb_eq. lia.
+Qed.
+
+(* ---------- the digest input is the RFC 8945 input ---------- *)
+
+Definition vars_of (k : key) (rd : tsig) (t : Z) : tsig_variables :=
+  {| v_name := kname k; v_alg := kalg k; v_time := t; v_fudge := t_fudge rd;
+     v_error := t_error rd; v_other := t_other rd |}.
+
+Definition time_of (rd : tsig) (time : option Z) : Z :=
+  match time with Some t => t | None => t_time rd end.
+
+Definition omac (rmac : bytes) : option octets := match rmac with [] => None | _ => Some rmac end.
+
+Lemma get_context_ok : forall k c,
+  get_context k = Ok c ->
+  assoc_name hashes (kalg k) = Some (c_hash c, c_size c) /\ c_key c = ksecret k /\ c_data c = [].
+Proof.
+  intros k c E. unfold get_context in E.
+  destruct (NameM.name_eqb (kalg k) nGSS_TSIG); [discriminate|].
+  destruct (assoc_name hashes (kalg k)) as [[h sz]|]; [|discriminate].
+  inversion E. cbn. auto.
+Qed.
+
+Lemma pack_u16_ok : forall v b, pack_u16 v = Ok b -> b = be 2 v /\ in_u16 v = true.
+Proof.
+  intros v b E. unfold pack_u16 in E. destruct (in_u16 v) eqn:I; [|discriminate].
+  inversion E. split; [now apply u16_be | reflexivity].
+Qed.
+
+Lemma time_encoded_ok : forall t f b,
+  time_encoded t f = Ok b -> b = be 6 t ++ be 2 f /\ in_u16 f = true.
+Proof.
+  intros t f b E. unfold time_encoded in E. destruct (in_u16 f) eqn:I; [|discriminate].
+  ok_inv E. split; [|reflexivity].
+  rewrite (u16_be f) by assumption.
+  change (u16 (t / 4294967296 mod 65536) ++ u32 (t mod 4294967296) ++ be 2 f)
+    with (u16 (t / 4294967296 mod 65536) ++ (u32 (t mod 4294967296) ++ be 2 f)).
+  rewrite app_assoc. now rewrite time_be.
+Qed.
+
+Lemma first_prefix : forall c0 (rmac : bytes) c1,
+  (match rmac with
+   | [] => Ok c0
+   | _ :: _ => do l <- pack_u16 (zlen rmac); Ok (update (update c0 l) rmac)
+   end) = Ok c1 ->
+  c_data c1 = c_data c0 ++ (match omac rmac with Some m => rfc_request_mac m | None => [] end)
+  /\ c_key c1 = c_key c0 /\ c_hash c1 = c_hash c0 /\ c_size c1 = c_size c0.
+Proof.
+  intros c0 rmac c1 E. destruct rmac as [|r0 rm].
+  - ok_inv E. cbn [omac]. rewrite app_nil_r. auto.
+  - destruct (pack_u16 (zlen (r0 :: rm))) as [l| |] eqn:PK; cbn [bind] in E; try discriminate.
+    apply pack_u16_ok in PK as [-> _]. ok_inv E.
+    cbn [update c_data c_key c_hash c_size omac]. unfold rfc_request_mac, olen, zlen.
+    rewrite <- app_assoc. auto.
+Qed.
+
+(* first form: request (no request MAC) or response / first envelope (request MAC) *)
+Lemma digest_first_is_rfc : forall wire k rd time rmac ctx multi c,
+  (ctx = None \/ multi = false) ->
+  digest wire k rd time rmac ctx multi = Ok c ->
+  c_data c = rfc8945_input (omac rmac) (t_oid rd) wire (vars_of k rd (time_of rd time))
+  /\ c_key c = ksecret k
+  /\ assoc_name hashes (kalg k) = Some (c_hash c, c_size c).
+Proof.
+  intros wire k rd time rmac ctx multi c Hf E.
+  unfold digest in E.
+  assert (F : negb (match ctx with Some _ => multi | None => false end) = true)
+    by (destruct Hf; subst; [reflexivity | now destruct ctx]).
+  rewrite F in E. clear F Hf.
+  destruct (get_context k) as [c0| |] eqn:G; cbn [bind] in E; try discriminate.
+  apply get_context_ok in G as (Gh & Gk & Gd).
+  destruct (match rmac with
+            | [] => Ok c0
+            | _ :: _ => do l <- pack_u16 (zlen rmac); Ok (update (update c0 l) rmac)
+            end) as [c1| |] eqn:E1; cbn [bind] in E; try discriminate.
+  apply first_prefix in E1 as (D1 & K1 & H1 & S1). rewrite Gd in D1. cbn [app] in D1.
+  destruct (pack_u16 (t_oid rd)) as [oid| |] eqn:PO; cbn [bind] in E; try discriminate.
+  apply pack_u16_ok in PO as [-> _].
+  destruct (NameM.to_wire (kname k) None true) as [kn| |] eqn:KN; cbn [bind] in E; try discriminate.
+  apply to_digestable_ok in KN as [-> _].
+  destruct (time_encoded _ _) as [te| |] eqn:TE; cbn [bind] in E; try discriminate.
+  apply time_encoded_ok in TE as [-> FU].
+  destruct (zlen (t_other rd) >? 65535) eqn:OL; [discriminate|].
+  destruct (NameM.to_wire (kalg k) None true) as [an| |] eqn:AN; cbn [bind] in E; try discriminate.
+  apply to_digestable_ok in AN as [-> _].
+  destruct (in_u16 (t_error rd)) eqn:IE; [|discriminate].
+  ok_inv E.
+  cbn [update c_data c_key c_hash c_size].
+  rewrite D1, K1, Gk, H1, S1. split; [|split; [reflexivity|assumption]].
+  unfold rfc8945_input, rfc_dns_message, rfc_tsig_variables, vars_of, time_of, CLASS_ANY.
+  cbn [v_name v_alg v_time v_fudge v_error v_other].
+  assert (OLb : in_u16 (zlen (t_other rd)) = true).
+  { apply in_u16_iff. rewrite Z.gtb_ltb in OL. apply Z.ltb_ge in OL. unfold zlen in *. lia. }
+  rewrite !u16_be by (assumption || reflexivity).
+  rewrite u32_be0. unfold olen, zlen.
+  repeat rewrite <- app_assoc. reflexivity.
+Qed.
+
+(* subsequent form: an existing context in a multi-message exchange *)
+Lemma digest_subsequent_is_rfc : forall wire k rd time rmac c0 c,
+  digest wire k rd time rmac (Some c0) true = Ok c ->
+  c_data c = c_data c0 ++ rfc_dns_message (t_oid rd) wire
+             ++ rfc_tsig_timers (time_of rd time) (t_fudge rd)
+  /\ c_key c = c_key c0 /\ c_hash c = c_hash c0 /\ c_size c = c_size c0.
+Proof.
+  intros wire k rd time rmac c0 c E. unfold digest in E. cbn [negb bind] in E.
+  destruct (pack_u16 (t_oid rd)) as [oid| |] eqn:PO; cbn [bind] in E; try discriminate.
+  apply pack_u16_ok in PO as [-> _].
+  destruct (time_encoded _ _) as [te| |] eqn:TE; cbn [bind] in E; try discriminate.
+  apply time_encoded_ok in TE as [-> FU].
+  destruct (zlen (t_other rd) >? 65535); [discriminate|].
+  ok_inv E. cbn [update c_data c_key c_hash c_size].
+  unfold rfc_dns_message, rfc_tsig_timers, time_of.
+  repeat rewrite <- app_assoc. auto.
+Qed.
+
+(* the context returned for the next envelope starts with the length-prefixed MAC *)
+Lemma maybe_start_digest_ok : forall k mac c,
+  maybe_start_digest k mac true = Ok (Some c) ->
+  c_data c = rfc_request_mac mac /\ c_key c = ksecret k
+  /\ assoc_name hashes (kalg k) = Some (c_hash c, c_size c).
+Proof.
+  intros k mac c E. unfold maybe_start_digest in E.
+  destruct (get_context k) as [c0| |] eqn:G; cbn [bind] in E; try discriminate.
+  apply get_context_ok in G as (Gh & Gk & Gd).
+  destruct (pack_u16 (zlen mac)) as [l| |] eqn:PK; cbn [bind] in E; try discriminate.
+  apply pack_u16_ok in PK as [-> _]. inversion E; subst c.
+  cbn [update c_data c_key c_hash c_size]. rewrite Gd. cbn [app]. unfold rfc_request_mac, olen, zlen. auto.
+Qed.
+
+Lemma maybe_start_digest_single : forall k mac r,
+  maybe_start_digest k mac false = r -> r = Ok None.
+Proof. intros. now subst. Qed.
+
+(* ---------- validate ---------- *)
+
+(* the truncation the model applies, in the words of the specification *)
+Definition trunc_of (sz : option Z) : option nat :=
+  match sz with Some s => Some (Z.to_nat (s / 8)) | None => None end.
+
+Lemma ctx_sign_spec : forall H c,
+  ctx_sign H c = rfc_truncate (trunc_of (c_size c)) (H (c_hash c) (c_key c) (c_data c)).
+Proof. intros. unfold ctx_sign, rfc_truncate, trunc_of. now destruct (c_size c). Qed.
 
 Section WithH.
   Variable H : hashid -> bytes -> bytes -> bytes.
 
-  (* a TSIG that reports an error is never accepted: validate raises the matching Peer* exception
-     before looking at time, key or MAC *)
+  Definition pre_ok (wire : bytes) (k : key) (owner : name) (rd : tsig) (now : Z) (adcount : Z) : Prop :=
+    get_adcount wire = Ok adcount /\ adcount <> 0 /\ t_error rd = 0
+    /\ rfc_time_ok now (t_time rd) (t_fudge rd)
+    /\ NameM.name_eqb (kname k) owner = true
+    /\ NameM.name_eqb (kalg k) (t_alg rd) = true.
+
+  Lemma validate_pre_iff : forall wire k owner rd now start nw,
+    validate_pre wire k owner rd now start = Ok nw <->
+    exists adcount, pre_ok wire k owner rd now adcount /\ nw = strip_tsig wire adcount start.
+  Proof.
+    intros. unfold validate_pre, pre_ok, rfc_time_ok. split.
+    - intros E. destruct (get_adcount wire) as [ad| |]; cbn [bind] in E; try discriminate.
+      destruct (ad =? 0) eqn:A; [discriminate|].
+      destruct (t_error rd =? 0) eqn:B; cbn [negb] in E; [|discriminate].
+      destruct (Z.abs (t_time rd - now) >? t_fudge rd) eqn:C; [discriminate|].
+      destruct (NameM.name_eqb (kname k) owner) eqn:D; cbn [negb] in E; [|discriminate].
+      destruct (NameM.name_eqb (kalg k) (t_alg rd)) eqn:F; cbn [negb] in E; [|discriminate].
+      inversion E. exists ad. apply Z.eqb_neq in A. apply Z.eqb_eq in B.
+      rewrite Z.gtb_ltb in C. apply Z.ltb_ge in C.
+      repeat split; auto. lia.
+    - intros (ad & (G & A & B & C & D & F) & ->). rewrite G. cbn [bind].
+      apply Z.eqb_neq in A. rewrite A. rewrite B. cbn [Z.eqb negb].
+      assert (Cb : Z.abs (t_time rd - now) >? t_fudge rd = false).
+      { rewrite Z.gtb_ltb. apply Z.ltb_ge. lia. }
+      rewrite Cb, D, F. reflexivity.
+  Qed.
+
+  Lemma ctx_verify_iff : forall c mac, ctx_verify H c mac = Ok tt <-> mac = ctx_sign H c.
+  Proof.
+    intros. unfold ctx_verify. destruct (zlist_eqb (ctx_sign H c) mac) eqn:E.
+    - apply zlist_eqb_eq in E. split; auto.
+    - split; [discriminate|]. intros ->. rewrite zlist_eqb_refl in E. discriminate.
+  Qed.
+
+  (* validate accepts exactly when the checks pass, the digest can be built, and the MAC in the
+     record equals the (possibly truncated) keyed hash of the digested octets *)
+  Lemma validate_accepts_iff_lemma : forall wire k owner rd now rmac start ctx multi r,
+    validate H wire k owner rd now rmac start ctx multi = Ok r <->
+    exists adcount c,
+      pre_ok wire k owner rd now adcount
+      /\ digest (strip_tsig wire adcount start) k rd None rmac ctx multi = Ok c
+      /\ t_mac rd = ctx_sign H c
+      /\ maybe_start_digest k (t_mac rd) multi = Ok r.
+  Proof.
+    intros. unfold validate. split.
+    - intros E.
+      destruct (validate_pre wire k owner rd now start) as [nw| |] eqn:P; cbn [bind] in E; try discriminate.
+      apply validate_pre_iff in P as (ad & P & ->).
+      destruct (digest _ k rd None rmac ctx multi) as [c| |] eqn:D; cbn [bind] in E; try discriminate.
+      destruct (ctx_verify H c (t_mac rd)) as [[]| |] eqn:V; cbn [bind] in E; try discriminate.
+      apply ctx_verify_iff in V. exists ad, c. auto.
+    - intros (ad & c & P & D & M & S).
+      assert (P' : validate_pre wire k owner rd now start = Ok (strip_tsig wire ad start))
+        by (apply validate_pre_iff; eauto).
+      rewrite P'. cbn [bind]. rewrite D. cbn [bind].
+      apply ctx_verify_iff in M. rewrite M. cbn [bind]. exact S.
+  Qed.
+
+  (* one-line failure lemmas, in the order of the checks *)
   Lemma peer_error_lemma :
     forall wire k owner rd now rmac start ctx multi adcount,
       get_adcount wire = Ok adcount -> adcount <> 0 ->
@@ -20,4 +314,231 @@ Section WithH.
     destruct (t_error rd =? 0) eqn:E2; [apply Z.eqb_eq in E2; contradiction|].
     reflexivity.
   Qed.
+
+  Lemma bad_time_lemma :
+    forall wire k owner rd now rmac start ctx multi adcount,
+      get_adcount wire = Ok adcount -> adcount <> 0 -> t_error rd = 0 ->
+      ~ rfc_time_ok now (t_time rd) (t_fudge rd) ->
+      validate H wire k owner rd now rmac start ctx multi = Lib eBadTime.
+  Proof.
+    intros until adcount. intros G A B C. unfold validate, validate_pre. rewrite G. cbn [bind].
+    apply Z.eqb_neq in A. rewrite A, B. cbn [Z.eqb negb].
+    assert (Cb : Z.abs (t_time rd - now) >? t_fudge rd = true).
+    { rewrite Z.gtb_ltb. apply Z.ltb_lt. unfold rfc_time_ok in C. lia. }
+    now rewrite Cb.
+  Qed.
+
+  Lemma bad_key_lemma :
+    forall wire k owner rd now rmac start ctx multi adcount,
+      get_adcount wire = Ok adcount -> adcount <> 0 -> t_error rd = 0 ->
+      rfc_time_ok now (t_time rd) (t_fudge rd) ->
+      NameM.name_eqb (kname k) owner = false ->
+      validate H wire k owner rd now rmac start ctx multi = Lib eBadKey.
+  Proof.
+    intros until adcount. intros G A B C D. unfold validate, validate_pre. rewrite G. cbn [bind].
+    apply Z.eqb_neq in A. rewrite A, B. cbn [Z.eqb negb].
+    assert (Cb : Z.abs (t_time rd - now) >? t_fudge rd = false).
+    { rewrite Z.gtb_ltb. apply Z.ltb_ge. unfold rfc_time_ok in C. lia. }
+    now rewrite Cb, D.
+  Qed.
+
+  Lemma bad_alg_lemma :
+    forall wire k owner rd now rmac start ctx multi adcount,
+      get_adcount wire = Ok adcount -> adcount <> 0 -> t_error rd = 0 ->
+      rfc_time_ok now (t_time rd) (t_fudge rd) ->
+      NameM.name_eqb (kname k) owner = true ->
+      NameM.name_eqb (kalg k) (t_alg rd) = false ->
+      validate H wire k owner rd now rmac start ctx multi = Lib eBadAlgorithm.
+  Proof.
+    intros until adcount. intros G A B C D F. unfold validate, validate_pre. rewrite G. cbn [bind].
+    apply Z.eqb_neq in A. rewrite A, B. cbn [Z.eqb negb].
+    assert (Cb : Z.abs (t_time rd - now) >? t_fudge rd = false).
+    { rewrite Z.gtb_ltb. apply Z.ltb_ge. unfold rfc_time_ok in C. lia. }
+    now rewrite Cb, D, F.
+  Qed.
+
+  (* ---------- sign then validate ---------- *)
+
+  (* digest looks at the rdata only through original id, time, fudge, error, other data *)
+  Lemma digest_rd_irrelevant : forall wire k rd rd' time time' rmac ctx multi,
+    t_oid rd = t_oid rd' -> t_fudge rd = t_fudge rd' -> t_error rd = t_error rd' ->
+    t_other rd = t_other rd' -> time_of rd time = time_of rd' time' ->
+    digest wire k rd time rmac ctx multi = digest wire k rd' time' rmac ctx multi.
+  Proof.
+    intros until multi. intros A B C D E. unfold digest.
+    unfold time_of in E. rewrite A, B, C, D.
+    replace (match time with Some t => t | None => t_time rd end)
+       with (match time' with Some t => t | None => t_time rd' end) by (symmetry; exact E).
+    reflexivity.
+  Qed.
+
+  Lemma mk_tsig_fields : forall a t f m o e ot r,
+    mk_tsig a t f m o e ot = Ok r ->
+    t_alg r = a /\ t_time r = t /\ t_fudge r = f /\ t_mac r = m /\ t_oid r = o /\ t_error r = e /\ t_other r = ot.
+  Proof.
+    intros. unfold mk_tsig in H0.
+    destruct (negb (in_u48 t)); [discriminate|]. destruct (negb (in_u16 f)); [discriminate|].
+    destruct (negb (in_u16 o)); [discriminate|]. destruct (negb _); [discriminate|].
+    inversion H0. cbn. repeat split.
+  Qed.
+
+  (* every TSIG the library computes validates under the same key: `wire'` is any message that
+     contains `wire` up to `start` with ARCOUNT one higher (i.e. wire plus the TSIG RR) *)
+  Lemma sign_then_validate_lemma :
+    forall wire k rd t rmac ctx multi rd' c' wire' start adcount now,
+      sign H wire k rd (Some t) rmac ctx multi = Ok (rd', c') ->
+      get_adcount wire' = Ok adcount -> adcount <> 0 ->
+      strip_tsig wire' adcount start = wire ->
+      t_error rd = 0 ->
+      NameM.name_eqb (kalg k) (t_alg rd) = true ->
+      rfc_time_ok now t (t_fudge rd) ->
+      validate H wire' k (kname k) rd' now rmac start ctx multi = Ok c'.
+  Proof.
+    intros until now. intros S G A W Er Al Ti.
+    unfold sign in S.
+    destruct (digest wire k rd (Some t) rmac ctx multi) as [c| |] eqn:D; cbn [bind] in S; try discriminate.
+    destruct (mk_tsig _ _ _ _ _ _ _) as [r| |] eqn:M; cbn [bind] in S; try discriminate.
+    destruct (maybe_start_digest k (ctx_sign H c) multi) as [cc| |] eqn:MS; cbn [bind] in S; try discriminate.
+    inversion S; subst r cc; clear S.
+    apply mk_tsig_fields in M as (Fa & Ft & Ff & Fm & Fo & Fe & Fot).
+    apply validate_accepts_iff_lemma. exists adcount, c. repeat split; auto.
+    - congruence.
+    - rewrite Ft, Ff. exact Ti.
+    - apply name_eqb_refl.
+    - congruence.
+    - rewrite W. rewrite <- D. apply digest_rd_irrelevant; try congruence.
+      cbn [time_of]. congruence.
+    - rewrite Fm. exact MS.
+  Qed.
 End WithH.
+
+(* ---------- statements in terms of the RFC input ---------- *)
+
+Lemma strip_is_rfc_received : forall wire ad start,
+  in_u16 (ad - 1) = true ->
+  strip_tsig wire ad start = rfc_received_message wire ad start.
+Proof.
+  intros. unfold strip_tsig, rfc_received_message, slice. rewrite u16_be by assumption.
+  cbn [skipn]. replace (10 - 0)%nat with 10%nat by reflexivity. reflexivity.
+Qed.
+
+Lemma get_adcount_range : forall wire ad,
+  all_bytes wire = true -> get_adcount wire = Ok ad -> 0 <= ad < 65536.
+Proof.
+  intros wire ad A G. unfold get_adcount in G.
+  destruct (slice wire 10 12) as [|a [|b [|]]] eqn:S; try discriminate.
+  ok_inv G.
+  assert (In a (slice wire 10 12) /\ In b (slice wire 10 12)) as [Ia Ib] by (rewrite S; cbn; auto).
+  unfold slice in Ia, Ib.
+  assert (forall (x : Z) n l, In x (firstn n l) -> In x l) as FI.
+  { intros x n l. rewrite <- (firstn_skipn n l) at 2. intros. apply in_or_app. now left. }
+  apply FI in Ia, Ib.
+  assert (forall x n, In x (skipn n wire) -> In x wire) as SK.
+  { intros x n. rewrite <- (firstn_skipn n wire) at 2. intros. apply in_or_app. now right. }
+  apply SK in Ia, Ib.
+  unfold all_bytes in A. rewrite forallb_forall in A.
+  pose proof (A _ Ia) as Ba. pose proof (A _ Ib) as Bb.
+  unfold is_byte in Ba, Bb. apply andb_true_iff in Ba as [Ba1 Ba2], Bb as [Bb1 Bb2].
+  apply Z.leb_le in Ba1, Bb1. apply Z.ltb_lt in Ba2, Bb2. lia.
+Qed.
+
+Section WithH2.
+  Variable H : hashid -> bytes -> bytes -> bytes.
+
+  (* an accepted first-form TSIG (request, response, first envelope) carries exactly the
+     RFC 8945 MAC: the keyed hash of the section 4.3 input, truncated as the algorithm says *)
+  Lemma validate_accepts_mac_is_rfc : forall wire k owner rd now rmac start ctx multi r,
+    (ctx = None \/ multi = false) ->
+    all_bytes wire = true ->
+    validate H wire k owner rd now rmac start ctx multi = Ok r ->
+    exists adcount h sz,
+      pre_ok wire k owner rd now adcount
+      /\ assoc_name hashes (kalg k) = Some (h, sz)
+      /\ t_mac rd = rfc_truncate (trunc_of sz)
+           (H h (ksecret k)
+              (rfc8945_input (omac rmac) (t_oid rd) (rfc_received_message wire adcount start)
+                 (vars_of k rd (t_time rd)))).
+  Proof.
+    intros until r. intros F A V.
+    apply validate_accepts_iff_lemma in V as (ad & c & P & D & M & S).
+    apply digest_first_is_rfc in D as (Dd & Dk & Dh); [|assumption].
+    exists ad, (c_hash c), (c_size c). split; [assumption|]. split; [assumption|].
+    rewrite M, ctx_sign_spec, Dd, Dk. cbn [time_of].
+    rewrite strip_is_rfc_received; [reflexivity|].
+    destruct P as (G & NZ & _). pose proof (get_adcount_range _ _ A G). apply in_u16_iff. lia.
+  Qed.
+
+  (* and of a subsequent envelope: the running context followed by message and timers *)
+  Lemma validate_accepts_mac_subsequent : forall wire k owner rd now rmac start c0 r,
+    all_bytes wire = true ->
+    validate H wire k owner rd now rmac start (Some c0) true = Ok r ->
+    exists adcount,
+      pre_ok wire k owner rd now adcount
+      /\ t_mac rd = rfc_truncate (trunc_of (c_size c0))
+           (H (c_hash c0) (c_key c0)
+              (c_data c0 ++ rfc_dns_message (t_oid rd) (rfc_received_message wire adcount start)
+                 ++ rfc_tsig_timers (t_time rd) (t_fudge rd)))
+      /\ exists c1, r = Some c1 /\ c_data c1 = rfc_request_mac (t_mac rd) /\ c_key c1 = ksecret k
+                    /\ assoc_name hashes (kalg k) = Some (c_hash c1, c_size c1).
+  Proof.
+    intros until r. intros A V.
+    apply validate_accepts_iff_lemma in V as (ad & c & P & D & M & S).
+    apply digest_subsequent_is_rfc in D as (Dd & Dk & Dh & Ds).
+    exists ad. split; [assumption|]. split.
+    - rewrite M, ctx_sign_spec, Dd, Dk, Dh, Ds. cbn [time_of].
+      rewrite strip_is_rfc_received; [reflexivity|].
+      destruct P as (G & NZ & _). pose proof (get_adcount_range _ _ A G). apply in_u16_iff. lia.
+    - destruct r as [c1|].
+      + exists c1. split; [reflexivity|]. now apply maybe_start_digest_ok.
+      + unfold maybe_start_digest in S.
+        destruct (get_context k); cbn [bind] in S; try discriminate.
+        destruct (pack_u16 _); cbn [bind] in S; discriminate.
+  Qed.
+
+  (* the MAC sign computes, first form *)
+  Lemma sign_mac_is_rfc : forall wire k rd t rmac ctx multi rd' c',
+    (ctx = None \/ multi = false) ->
+    sign H wire k rd (Some t) rmac ctx multi = Ok (rd', c') ->
+    exists h sz,
+      assoc_name hashes (kalg k) = Some (h, sz)
+      /\ t_mac rd' = rfc_truncate (trunc_of sz)
+           (H h (ksecret k) (rfc8945_input (omac rmac) (t_oid rd) wire (vars_of k rd t)))
+      /\ t_time rd' = t /\ t_alg rd' = t_alg rd /\ t_fudge rd' = t_fudge rd
+      /\ t_oid rd' = t_oid rd /\ t_error rd' = t_error rd /\ t_other rd' = t_other rd.
+  Proof.
+    intros until c'. intros F S. unfold sign in S.
+    destruct (digest wire k rd (Some t) rmac ctx multi) as [c| |] eqn:D; cbn [bind] in S; try discriminate.
+    destruct (mk_tsig _ _ _ _ _ _ _) as [r| |] eqn:M; cbn [bind] in S; try discriminate.
+    destruct (maybe_start_digest k (ctx_sign H c) multi) as [cc| |] eqn:MS; cbn [bind] in S; try discriminate.
+    assert (r = rd' /\ cc = c') as [-> ->] by (split; congruence). clear S.
+    apply mk_tsig_fields in M as (Fa & Ft & Ff & Fm & Fo & Fe & Fot).
+    apply digest_first_is_rfc in D as (Dd & Dk & Dh); [|assumption].
+    exists (c_hash c), (c_size c). split; [assumption|].
+    rewrite Fm, ctx_sign_spec, Dd, Dk. cbn [time_of]. repeat split; auto.
+  Qed.
+
+  (* the MAC sign computes for a subsequent envelope, and the context it hands on *)
+  Lemma sign_mac_subsequent : forall wire k rd t rmac c0 rd' c',
+    sign H wire k rd (Some t) rmac (Some c0) true = Ok (rd', c') ->
+    t_mac rd' = rfc_truncate (trunc_of (c_size c0))
+        (H (c_hash c0) (c_key c0)
+           (c_data c0 ++ rfc_dns_message (t_oid rd) wire ++ rfc_tsig_timers t (t_fudge rd)))
+    /\ exists c1, c' = Some c1 /\ c_data c1 = rfc_request_mac (t_mac rd') /\ c_key c1 = ksecret k
+                  /\ assoc_name hashes (kalg k) = Some (c_hash c1, c_size c1).
+  Proof.
+    intros until c'. intros S. unfold sign in S.
+    destruct (digest wire k rd (Some t) rmac (Some c0) true) as [c| |] eqn:D; cbn [bind] in S; try discriminate.
+    destruct (mk_tsig _ _ _ _ _ _ _) as [r| |] eqn:M; cbn [bind] in S; try discriminate.
+    destruct (maybe_start_digest k (ctx_sign H c) true) as [cc| |] eqn:MS; cbn [bind] in S; try discriminate.
+    assert (r = rd' /\ cc = c') as [-> ->] by (split; congruence). clear S.
+    apply mk_tsig_fields in M as (Fa & Ft & Ff & Fm & Fo & Fe & Fot).
+    apply digest_subsequent_is_rfc in D as (Dd & Dk & Dh & Ds).
+    split.
+    - rewrite Fm, ctx_sign_spec, Dd, Dk, Dh, Ds. reflexivity.
+    - destruct c' as [c1|].
+      + exists c1. split; [reflexivity|]. rewrite Fm. now apply maybe_start_digest_ok.
+      + unfold maybe_start_digest in MS.
+        destruct (get_context k); cbn [bind] in MS; try discriminate.
+        destruct (pack_u16 _); cbn [bind] in MS; discriminate.
+  Qed.
+End WithH2.
